@@ -297,6 +297,8 @@ def _session(job):
             r['script']['update_kinds'] = list(r['script'].get('update_kinds') or []) + ['liquidate', 'liquidate']
             r['script']['p_update'] = max(r['script'].get('p_update') or 0.0, 0.2)
             r['script']['on_close_broker'] = True
+            r['script']['on_cancel_broker'] = 0.5       # ... and so does the hook that reports a cancelled entry
+            r['script']['cancel_policy'] = 'rnd'
     begin()
     M['session'] = True
     M['rng'] = random.Random(job['seed'] + 1)
